@@ -73,6 +73,14 @@ func (l *RefLog) Sequence(k int, tsNanos uint64) uint64 {
 	return l.tree.Size()
 }
 
+// NumRoots is the number of roots published so far; RootN returns the i-th of them (both safe for concurrent use).
+func (l *RefLog) NumRoots() int { l.mu.Lock(); defer l.mu.Unlock(); return len(l.Roots) }
+func (l *RefLog) RootN(i int) RefRoot {
+	l.mu.Lock()
+	defer l.mu.Unlock()
+	return l.Roots[i]
+}
+
 // Size is the number of integrated leaves; Pending the number of queued ones.
 func (l *RefLog) Size() uint64 { l.mu.Lock(); defer l.mu.Unlock(); return l.tree.Size() }
 func (l *RefLog) Pending() int { l.mu.Lock(); defer l.mu.Unlock(); return len(l.pending) }
